@@ -470,10 +470,11 @@ def ast_to_strings(ast: AST_TYPE, datapack: DataPack) -> tuple[str, str]:
         precommand = ""
     else:
         precommands: list[str] = []
-        current_count = -1
+        initialized_counts: set[int] = set()
         for conditions_and_count in precommand_conditions:
-            if conditions_and_count[1] > current_count:
-                current_count += 1
+            current_count = conditions_and_count[1]
+            if current_count not in initialized_counts:
+                initialized_counts.add(current_count)
                 precommands.append(
                     f"scoreboard players set {VAR}{current_count} {DataPack.var_name} 0"
                 )
